@@ -44,6 +44,7 @@ type Contract struct {
 	Params   []string // optional renaming of parameters (receiver first)
 	Requires []*Clause
 	Ensures  []*Clause
+	Checks   []*Clause // postconditions proved on the body but not exported to callers (may mention lastret/visits/ncalls)
 	Exsures  []*Clause
 	Modifies []*ModEntry
 	Loops    map[int]*LoopSpec
@@ -60,6 +61,7 @@ type Contract struct {
 	Reason   string
 	Refines  string // key of a (dynamic-call) contract whose requires/ensures/modifies this one inherits
 	NoCrash  bool   // crash obligations are not generated (assumed); recorded as an assumption
+	Implicit bool   // synthesised for the lock-discipline pass: loops are cut with the invariant "true"
 	CallSites []*CallSiteSpec
 }
 
@@ -91,6 +93,15 @@ type GhostVar struct {
 	Type string
 }
 
+// GuardRule: every access to a field (or package variable) must happen with a lock held.
+type GuardRule struct {
+	Target string   // "Type.field" or "global name"
+	Global bool
+	Lock   ast.Expr // over "self" (the object whose field is accessed)
+	Src    string
+	Where  string
+}
+
 // FrameRule is a package-wide syntactic frame condition checked by scanning SSA.
 type FrameRule struct {
 	Kind   string // "stores" | "loads" | "calls"
@@ -109,6 +120,7 @@ type Specs struct {
 	GhostOrd  []string
 	Sorts     []string
 	Frames    []*FrameRule
+	Guards    []*GuardRule
 	Order     []string
 	ModSets   map[string]string
 }
@@ -383,10 +395,11 @@ func (sp *Specs) directive(line, where string, cur **Contract) error {
 		*cur = nil
 	case "ghost":
 		// ghost Name Type
-		parts := strings.Fields(rest)
+		parts := strings.SplitN(rest, " ", 2)
 		if len(parts) != 2 {
 			return fmt.Errorf("%s: ghost Name Type", where)
 		}
+		parts[1] = strings.TrimSpace(parts[1])
 		sp.Ghosts[parts[0]] = &GhostVar{parts[0], parts[1]}
 		sp.GhostOrd = append(sp.GhostOrd, parts[0])
 		*cur = nil
@@ -445,6 +458,24 @@ func (sp *Specs) directive(line, where string, cur **Contract) error {
 		}
 		sp.Axioms = append(sp.Axioms, c)
 		*cur = nil
+	case "guard":
+		// guard T.f by <lock expr over self>   |   guard global name by <lock expr>
+		k := strings.Index(rest, " by ")
+		if k < 0 {
+			return fmt.Errorf("%s: guard TARGET by LOCKEXPR", where)
+		}
+		g := &GuardRule{Target: strings.TrimSpace(rest[:k]), Src: strings.TrimSpace(rest[k+4:]), Where: where}
+		if strings.HasPrefix(g.Target, "global ") {
+			g.Global = true
+			g.Target = strings.TrimSpace(g.Target[7:])
+		}
+		e, err := parseSpecExpr(g.Src)
+		if err != nil {
+			return fmt.Errorf("%s: %v", where, err)
+		}
+		g.Lock = e
+		sp.Guards = append(sp.Guards, g)
+		*cur = nil
 	case "frame":
 		// frame stores Type.field only-in f1, f2 ... [props]
 		fr := &FrameRule{Where: where}
@@ -491,7 +522,7 @@ func (sp *Specs) directive(line, where string, cur **Contract) error {
 			for _, p := range strings.Split(rest, ",") {
 				c.Params = append(c.Params, strings.TrimSpace(p))
 			}
-		case "requires", "ensures", "exsures", "decreases":
+		case "requires", "ensures", "exsures", "decreases", "check":
 			cl, err := sp.clause(rest, where, c.Props)
 			if err != nil {
 				return err
@@ -501,6 +532,8 @@ func (sp *Specs) directive(line, where string, cur **Contract) error {
 				c.Requires = append(c.Requires, cl)
 			case "ensures":
 				c.Ensures = append(c.Ensures, cl)
+			case "check":
+				c.Checks = append(c.Checks, cl)
 			case "exsures":
 				c.Exsures = append(c.Exsures, cl)
 			case "decreases":
